@@ -281,6 +281,96 @@ pub fn big_program(rng: &mut Rng) -> Vec<u8> {
     s.into_bytes()
 }
 
+
+/// A program assembled from small blocks, one per language feature (typed
+/// rule arguments, cascading rules with asserts, subruledefs, functions,
+/// constants and nested labels, #if/#elif/#else, banks, data directives,
+/// #res/#align/#addr, asm blocks, string encodings, sizeof/le, #const(noemit),
+/// #assert, slices and concatenation), drawn and ordered at random, with an
+/// occasional injected error. Each block suffixes its names with its index,
+/// so any combination is well-formed; the point is to meet features in
+/// combinations no single test of the corpus has.
+pub fn feature_mix_program(rng: &mut Rng) -> Vec<u8> {
+    let mut s = String::new();
+    let banked = rng.chance(1, 3);
+    if banked {
+        s.push_str(&format!("#bankdef main\n{{\n    #addr {}\n    #size 0x800\n    #outp 0\n{}}}\n\n", rng.pick(&["0x0", "0x100", "0x8000"]), if rng.chance(1, 4) { "    #fill\n" } else { "" }));
+        if rng.chance(1, 3) {
+            s.push_str("#bankdef aux\n{\n    #addr 0x0\n    #size 0x40\n    #outp 8 * 0x800\n}\n\n#bank main\n");
+        }
+    }
+    let nblocks = rng.range(2, 7);
+    let mut used: Vec<usize> = Vec::new();
+    for i in 0..nblocks {
+        let kind = rng.below(14);
+        used.push(kind);
+        match kind {
+            0 => {
+                s.push_str(&format!("#ruledef r{i}\n{{\n    mv{i} {{a: u8}}, {{b: s8}} => 0x1{i} @ a @ b\n    halt{i} => 0x4{i}\n}}\nmv{i} {}, {}\nhalt{i}\n", rng.below(256), rng.below(100) as i64 - 50, i = i));
+            }
+            1 => {
+                // cascading rules choosing a size through asserts, forward label
+                s.push_str(&format!("#ruledef\n{{\n    jr{i} {{t}} =>\n    {{\n        rel = t - $ - 2\n        assert(rel <= 127)\n        assert(rel >= -128)\n        0x2{i} @ rel`8\n    }}\n    jr{i} {{t}} => 0x3{i} @ t`16\n}}\njr{i} fwd{i}\n{}fwd{i}:\n", if rng.chance(1, 3) { "#res 200\n" } else { "#d8 0\n" }, i = i));
+            }
+            2 => {
+                s.push_str(&format!("#subruledef reg{i}\n{{\n    a => 0x00\n    b => 0x01\n    [{{x: u8}}] => 0x80 | x\n}}\n#ruledef\n{{\n    ldr{i} {{r: reg{i}}}, {{v: i8}} => 0x5{i} @ r`8 @ v\n}}\nldr{i} {}, {}\n", rng.pick(&["a", "b", "[3]", "[0x7f]"]), rng.below(200) as i64 - 100, i = i));
+            }
+            3 => {
+                s.push_str(&format!("#fn dbl{i}(x) => x * 2\n#fn add{i}(x, y) => dbl{i}(x) + y\n#d8 add{i}({}, {})\n", rng.below(20), rng.below(20), i = i));
+            }
+            4 => {
+                s.push_str(&format!("c{i} = {} + {i}\nglob{i}:\n#d8 c{i}\n.loc:\n#d8 .loc - glob{i}\n..deep = 7\n#d8 glob{i}.loc.deep\n", rng.below(30), i = i));
+            }
+            5 => {
+                s.push_str(&format!("k{i} = {}\n#if k{i} > 3\n{{\n    #d8 1\n    inner{i} = 10\n}}\n#elif k{i} == 3\n{{\n    #d8 2\n    inner{i} = 20\n}}\n#else\n{{\n    #d8 3\n    inner{i} = 30\n}}\n#d8 inner{i}\n", rng.below(7), i = i));
+            }
+            6 => {
+                s.push_str(&format!("#d8 1, 2, 0x03\n#d16 0x12{i}4\n#d \"ab\"\n#d 0x12 @ 0x34\n#d le(0x1234)\n#d32 {}\n", rng.below(100000), i = i % 10));
+            }
+            7 => {
+                s.push_str(&format!("#res {}\n#align {}\npast{i}:\n#d8 past{i}`8\n", rng.range(1, 9), rng.pick(&["8", "16", "32", "64"]), i = i));
+            }
+            8 => {
+                s.push_str(&format!("#ruledef\n{{\n    emitb{i} {{v: u8}} => v\n    twice{i} {{x: u8}} => asm\n    {{\n        emitb{i} {{x}}\n        here:\n        emitb{i} here`8\n    }}\n}}\ntwice{i} {}\n", rng.below(256), i = i));
+            }
+            9 => {
+                s.push_str(&format!("#d utf8(\"h\u{e9}\")\n#d ascii(\"hi{i}\")\n#d utf16be(\"a\")\n#d utf32le(\"z\")\n", i = i));
+            }
+            10 => {
+                s.push_str(&format!("#ruledef\n{{\n    sz{i} {{x}} => (sizeof(x) > 8 ? 0xff : 0x00) @ x @ sizeof(x)`8\n}}\nsz{i} {}\n", rng.pick(&["0x12", "0x1234", "0`0", "0x0"]), i = i));
+            }
+            11 => {
+                s.push_str(&format!("#const(noemit) hidden{i} = {}\n#const shown{i} = hidden{i} + 1\n#d8 shown{i}\n#assert shown{i} == hidden{i} + 1\n", rng.below(200), i = i));
+            }
+            12 => {
+                s.push_str(&format!("w{i} = 0x1234\n#d8 w{i}[7:0]\n#d8 w{i}[15:8]\n#d (w{i}[3:0] @ 0b1010)`8\n#d8 (w{i} >> 4)`8\n#d8 w{i} % 7 == 0 ? 1 : 0\n", i = i));
+            }
+            _ => {
+                if banked && rng.chance(1, 2) {
+                    s.push_str("#addr $ + 4\n");
+                }
+                s.push_str(&format!("tail{i}:\n#d8 tail{i}`8, $`8\n", i = i));
+            }
+        }
+    }
+    if rng.chance(1, 4) {
+        s.push_str(match rng.below(7) {
+            0 => "#d8 undefined_name\n",
+            1 => "#d8 300\n",
+            2 => "#assert 1 == 2\n",
+            3 => "#d8 1 / 0\n",
+            4 => "unknown_instruction 1, 2\n",
+            5 => "#d8 \"too long\"\n",
+            _ => "#bank nowhere\n",
+        });
+    }
+    if banked && s.contains("#bankdef aux") && rng.chance(1, 2) {
+        s.push_str("#bank aux\n#d8 0xaa, 0xbb\n");
+    }
+    let _ = used;
+    s.into_bytes()
+}
+
 /// Job `k` of the pool for this seed: a pure function of (seed, k).
 pub fn pool_job(seed: u64, k: usize, c: &Corpus) -> Job {
     let mut rng = Rng::new(seed).fork_n("c10-pool", k as u64);
@@ -305,7 +395,11 @@ pub fn pool_job(seed: u64, k: usize, c: &Corpus) -> Job {
         // generated programs: many symbols / ambiguous prefixes / several
         // files with identical layout / on top of the built-in library
         let mut disk = crate::disk::Disk::new(corpus::PROJ);
-        let root = match rng.below(12) {
+        let root = match rng.below(16) {
+            12 | 13 | 14 | 15 => {
+                disk.add_file("mix.asm", feature_mix_program(&mut rng));
+                "mix.asm".to_string()
+            }
             8 => {
                 disk.add_file("banks.asm", bank_program(&mut rng));
                 "banks.asm".to_string()
@@ -482,7 +576,10 @@ pub fn build_plan(rng: &mut Rng, seed: u64, c: &Corpus) -> SimPlan {
     if rng.chance(1, 8) {
         return build_realfs_plan(rng, seed, c);
     }
-    let n_jobs = *rng.pick(&[3, 3, 4, 4, 5, 6, 8, 10]);
+    // now and then a long history on one thread (state that only builds up
+    // over dozens of assemblies, e.g. a counter leaked on error paths)
+    let long_history = rng.chance(1, 40);
+    let n_jobs = if long_history { rng.range(30, 60) } else { *rng.pick(&[3, 3, 4, 4, 5, 6, 8, 10]) };
     let mut jobs: Vec<Job> = Vec::new();
     while jobs.len() < n_jobs {
         let k = rng.below(POOL);
@@ -524,7 +621,7 @@ pub fn build_plan(rng: &mut Rng, seed: u64, c: &Corpus) -> SimPlan {
         }
         jobs.push(job);
     }
-    let nthreads = *rng.pick(&[1, 2, 2, 3, 4]);
+    let nthreads = if long_history { 1 } else { *rng.pick(&[1, 2, 2, 3, 4]) };
     let mut threads: Vec<ThreadPlan> = (0..nthreads)
         .map(|_| {
             let k = match rng.below(6) {
